@@ -44,7 +44,13 @@ def gen_design(r, cfg):
         n, w = d["inputs"][0]
         d["outputs"].append((n, w))
     if r.random() < 0.3:
-        d["clock"] = [d["inputs"][0][0]] if d["inputs"][0][1] == 1 else []
+        # one clock, or several on one line in an order that is not the sorted one
+        sc = [n for n, w in d["inputs"] if w == 1]
+        if len(sc) >= 2 and r.random() < 0.5:
+            pick = sorted(r.sample(sc, r.choice([2, 2, len(sc)])), reverse=r.random() < 0.7)
+            d["clock"] = pick
+        else:
+            d["clock"] = [d["inputs"][0][0]] if d["inputs"][0][1] == 1 else []
     bnames = set()
     for _ in range(r.randint(1, cfg.get("max_blackboxes", 3))):
         bb = {"name": ident(r, bnames, "LFDMX"), "inputs": [], "outputs": [],
